@@ -1004,15 +1004,15 @@ func LessThan(v0, v1 Object) bool {
 			return true
 		}
 	case *LongFloat:
-		if (*big.Float)(v1.(*LongFloat)).Cmp((*big.Float)(ta)) >= 0 {
+		if (*big.Float)(v1.(*LongFloat)).Cmp((*big.Float)(ta)) > 0 {
 			return true
 		}
 	case *Bignum:
-		if (*big.Int)(v1.(*Bignum)).Cmp((*big.Int)(ta)) >= 0 {
+		if (*big.Int)(v1.(*Bignum)).Cmp((*big.Int)(ta)) > 0 {
 			return true
 		}
 	case *Ratio:
-		if (*big.Rat)(v1.(*Ratio)).Cmp((*big.Rat)(ta)) >= 0 {
+		if (*big.Rat)(v1.(*Ratio)).Cmp((*big.Rat)(ta)) > 0 {
 			return true
 		}
 	default:
